@@ -313,7 +313,7 @@ func execute(c *caseDesc, ch coop.Chooser) (*coop.Result, []outcome, string) {
 
 func check(c *caseDesc, r *coop.Result, outs []outcome) {
 	if r.Stuck {
-		run.Inconclusive("scheduler: a worker did not reach a yield point (wall-clock guard)")
+		run.Abort("scheduler: a worker did not reach a yield point (wall-clock guard); the process is abandoned")
 		return
 	}
 	c.Choices = r.Choices
